@@ -17,7 +17,7 @@ func init() {
 }
 
 func (callEngine) Worker(c workerCfg) *evid.Stats {
-	cfg := callsim.Config{Prop: c.Prop, Tier: c.Tier, Seed: c.Seed, W: c.W, NW: c.NW, Deadline: time.Now().Add(c.Budget), RepoDir: c.Repo, Known: c.Known, Journal: c.Journal, EmitAt: c.EmitAt, EmitOut: c.EmitOut}
+	cfg := callsim.Config{Prop: c.Prop, Tier: c.Tier, Seed: c.Seed, W: c.W, NW: c.NW, Deadline: time.Now().Add(c.Budget), RepoDir: c.Repo, Known: c.Known, Journal: c.Journal, EmitAt: c.EmitAt, EmitOut: c.EmitOut, StopAt: c.StopAt}
 	switch c.Prop {
 	case "C02":
 		return callsim.Worker02(cfg)
@@ -32,6 +32,9 @@ func (callEngine) Exec(prop string, raw json.RawMessage, c workerCfg) (*evid.Vio
 }
 
 func (callEngine) Minimise(prop string, v evid.Violation, still func(json.RawMessage) bool) (json.RawMessage, []string) {
+	if historyOf(v.Case) != nil {
+		return nil, nil
+	}
 	if isRaceCase(v.Case) {
 		return nil, nil
 	}
